@@ -135,7 +135,7 @@ class FllExporter(Exporter):
             result.append("none")
         elif isinstance(value, bool):
             result.append(str(value).lower())
-        elif isinstance(value, float):
+        elif isinstance(value, (float, np.floating)):
             result.append(Op.str(value))
         elif isinstance(value, (tuple, list, set)):
             for v_i in value:
